@@ -647,7 +647,19 @@ static int cmp_uid(const void *a, const void *b)
 	/* a difference-style comparator (what most callers write), with large magnitudes: only the sign may matter to whoever calls it */
 	return d > 2000000000L ? 2000000000 : d < -2000000000L ? -2000000000 : (int)d;
 }
-static void cmd_asort(int nt, char **t) { (void)nt; json_object_array_sort(H[hidx(t[1])], cmp_uid); ob_puts(&out, "= ok"); emit_dlog(); }
+/* a second ordering: by the CURRENT value of integer elements (other kinds: by uid), nulls first, ties by uid -- an order that changes when an element is changed in place */
+static long val_key(struct json_object *x) { return !x ? -1 : json_object_is_type(x, json_type_int) ? (long)json_object_get_int64(x) : uid_of(x); }
+static int cmp_val(const void *a, const void *b)
+{
+	struct json_object *x = *(struct json_object *const *)a, *y = *(struct json_object *const *)b; long u = val_key(x), v = val_key(y);
+	return u < v ? -1 : u > v ? 1 : cmp_uid(a, b);
+}
+/* ASORT <harr> [v]   json_object_array_sort by uid (or, with v, by current value) */
+static void cmd_asort(int nt, char **t) { json_object_array_sort(H[hidx(t[1])], nt > 2 ? cmp_val : cmp_uid); ob_puts(&out, "= ok"); emit_dlog(); }
+/* ASETV <harr> <idx> <val>: change the integer element at idx in place (json_object_set_int64 on the element itself; the array is not told) -> = <ret | -9 not an int> */
+static void cmd_asetv(int nt, char **t) { struct json_object *x = json_object_array_get_idx(H[hidx(t[1])], SZ(t[2])); (void)nt; ob_printf(&out, "= %d", x && json_object_is_type(x, json_type_int) ? json_object_set_int64(x, (int64_t)LL(t[3])) : -9); emit_dlog(); }
+/* ALADD <harr> <hval>: array_list_add on json_object_get_array(arr), i.e. the documented lower-level handle of the same array -> = <ret> */
+static void cmd_aladd(int nt, char **t) { int r; (void)nt; r = array_list_add(json_object_get_array(H[hidx(t[1])]), H[hidx(t[2])]); ob_printf(&out, "= %d", r); emit_dlog(); }
 /* ABS <harr> <hkey> -> = <found uid|-1|n> */
 static struct json_object *bs_key; static int bs_order_bad;
 static int cmp_key_first(const void *a, const void *b)
@@ -1162,6 +1174,8 @@ static void dispatch(int nt, char **t)
 	else if (!strcmp(c, "ADUMP")) cmd_adump(nt, t);
 	else if (!strcmp(c, "ASUM")) cmd_asum(nt, t);
 	else if (!strcmp(c, "ASORT")) cmd_asort(nt, t);
+	else if (!strcmp(c, "ASETV")) cmd_asetv(nt, t);
+	else if (!strcmp(c, "ALADD")) cmd_aladd(nt, t);
 	else if (!strcmp(c, "ABS")) cmd_abs(nt, t);
 	else if (!strcmp(c, "SSTR")) cmd_sstr(nt, t);
 	else if (!strcmp(c, "SSTRZ")) cmd_sstrz(nt, t);
